@@ -157,7 +157,8 @@ def main(argv=None):
             allent |= set(rp.get("entered", []))
         mech = getattr(mod, "MECHANISM", [])
         missing = [m for m in mech if m not in allent and _exists(m)]
-        any_violation = any(r.get("violations") for r in results)
+        _db = findings.load()
+        any_violation = any(findings.classify(prop, v, _db) is None for r in results for v in r.get("violations", []))
         if missing and not a.only and not any_violation:
             # (when cases already fail before reaching a function, the violations are the message)
             broken.append(f"mechanism never entered by the probe jobs: {missing}")
